@@ -34,7 +34,7 @@ REQUIRED_COUNTERS = ['converter', 'converter_no_bottom', 'has_cw', 'sparse_never
                      'zero_count', 'big', 'close_fraction',
                      'wtype:fraction', 'wtype:bigint', 'wtype:decimal', 'wtype:float',
                      'names:int0', 'names:empty0', 'names:person',
-                     'cands_6_7', 'shared3', 'only_in_shared', 'shared_first', 'long_cycle', 'tied_seats_3',
+                     'cands_6_7', 'shared3', 'shared3_first', 'only_in_shared', 'shared_first', 'long_cycle', 'tied_seats_3',
                      'tideman_multi', 'tideman_schwartz', 'schwartz_sensitive', 'scorer_sensitive', 'uab_sensitive',
                      'twice', 'after_refusal', 'ctor_fresh', 'ctor_callable', 'centre_squeeze']
 RULE = ('pairwise dictionaries over 2-5 candidates (6 occasionally) as in C06 (sparse / dense / tied / zero-count entries, '
@@ -103,6 +103,8 @@ DIRECTED_PROFILES = [
     ([[[2, 1, 3], '1'], [[2, 1], '1'], [[1, 2, 3], '2'], [[0, 2, 1, 3], '3'], [[3, 1, 2, 0], '3']], 'p_benham_tie_drops_smith'),
     # a candidate (3) that occurs only inside shared ranks; a 3-way shared rank
     ([[[0, [1, 3], 2], '3'], [[[1, 2, 3], 0], '2'], [[2, [0, 3]], '2']], 'p_only_in_shared'),
+    # the even split of a 3-way shared FIRST rank decides the elimination (a split by two ends in an elimination tie)
+    ([[[[1, 2, 3], 0], '2'], [[0, 2], '1'], [[1, 0, 3], '1']], 'p_shared3_first_split'),
     # Smith {0,1,2,3} but Schwartz {0,1,2}: 3 ties 0 and beats nobody of the cycle, everybody beats 4
     ([[[0, 1, 2, 3, 4], '3'], [[1, 2, 0, 3, 4], '3'], [[2, 0, 1, 3, 4], '3'], [[3, 0, 1, 2, 4], '9'], [[1, 2, 0, 4], '0']],
      'p_smith_vs_schwartz'),
@@ -201,6 +203,16 @@ def _gen(rng, tier):
             cs['_names'] = ['str', 'int0', 'empty0'][t % 3]
             cs['_tags'].append('names:' + cs['_names'])
             yield cs
+    # ballots that start with a shared rank of three or four candidates (the Gregory split of first preferences)
+    for t in range(12 if tier == 'quick' else 120):
+        m = rng.choice([4, 5, 6])
+        prof = CC.random_profile(rng, m, n_ballots=rng.randint(2, 5), max_shared=3)
+        g = rng.choice([3, 3, 4])
+        head = sorted(rng.sample(range(m), g))
+        rest = [c for c in range(m) if c not in head]
+        rng.shuffle(rest)
+        prof = [[[head] + rest[:rng.randint(0, len(rest))], str(rng.randint(2, 7))]] + [bw for bw in prof if bw[0] and bw[0][0] != head]
+        yield from _hybrid_cases(rng, prof, ['from_ranked', 'shared_first_directed'], multi=False)
     # long majority cycles without a Condorcet winner (4-7 candidates), through every evaluator and both hybrids
     import families
     for t in range(6 if tier == 'quick' else 60):
